@@ -63,17 +63,18 @@ type Sim struct {
 	workerIdle  int
 	clients     [NClients]*client
 
-	rng       *rand.Rand
-	steps     []string
-	stepNo    int
-	ops       [NClients][]Op
-	opNext    [NClients]int
-	replay    []string
-	replayPos int
-	skipped   int
-	hang      string
-	draining  bool
-	drainN    int
+	rng         *rand.Rand
+	steps       []string
+	stepNo      int
+	ops         [NClients][]Op
+	opNext      [NClients]int
+	replay      []string
+	replayPos   int
+	skipped     int
+	hang        string
+	draining    bool
+	restartSoon bool
+	drainN      int
 
 	watchdogMS int
 	loopback   string
@@ -499,9 +500,18 @@ func (s *Sim) exec(st stepRef) {
 		j := st.job
 		j.state = jPosting
 		s.or.beforePost(j)
+		wf := s.writeFault("post-"+simrt.KindNames[j.kind], j.seq, 0)
+		if wf != nil {
+			simrt.SetFsizeLimit(wf.Limit)
+			s.res.Count("fault_disk_full_during_completion_of_"+simrt.KindNames[j.kind], 1)
+		}
 		simrt.Release(j.wfd, false)
 		s.waitFor(func() bool { return !s.hasJob(j) }, "post of "+j.name())
 		s.settle()
+		if wf != nil {
+			simrt.SetFsizeLimit(0)
+			s.restartSoon = s.restartSoon || wf.Restart
+		}
 		s.or.afterPost(j)
 	case "tick":
 		n := s.workerIdle
@@ -626,6 +636,10 @@ func (s *Sim) runSchedule() {
 		if s.replay != nil {
 			st, ok = s.nextReplay(en)
 		} else {
+			if s.restartSoon {
+				s.restartSoon = false
+				restartAt[s.stepNo] = true
+			}
 			if restartAt[s.stepNo] && !s.restartWanted() {
 				// not now (see restartWanted): try again after the next step
 				delete(restartAt, s.stepNo)
